@@ -29,6 +29,18 @@ class InducedSet:
         "Induced set cannot be computed\n"+
         "Line is not connected to a GFA instance\n"+
         "Line: {}".format(self))
+    if self.__dict__.get("_computing_induced_set"):
+      raise gfapy.RuntimeError(
+        "Induced set cannot be computed\n"+
+        "The group refers, directly or indirectly, to itself\n"+
+        "Line: {}".format(self))
+    self.__dict__["_computing_induced_set"] = True
+    try:
+      return self._compute_induced_segments_set()
+    finally:
+      del self.__dict__["_computing_induced_set"]
+
+  def _compute_induced_segments_set(self):
     segments_set = list()
     for item in self.items:
       if isinstance(item, str):
